@@ -44,7 +44,9 @@ class C05(ParamsProp):
     def corpus(self):
         return [dict(c) for c in CLAUSES] + super().corpus()
 
-    def cases(self, tier, seed):
+    families = {"escapes_in_containers": 120}
+
+    def base_cases(self, tier, seed):
         N = 1200 if tier == "quick" else 30000
         for i in range(N):
             r = Rng(seed, "C05", i)
